@@ -56,12 +56,17 @@ Soundness limits actually implemented
     taxon_bitmask() fills a cache and so perturbs the state being watched; membership and
     lookups (which do not touch the cache) are still compared after every operation.
 
-Workload: directed witnesses; exhaustive histories over the label alphabet {a, A, b}
-(all histories of length <= L over an 18-operation alphabet and deeper ones over smaller
-alphabets, both case-sensitivity settings; a history of length k gets the membership/bit
-comparison after every operation and the full comparison after its last one -- every proper
-prefix is itself an enumerated history); random histories of length 50 over label pools
-with duplicates, case variants, special characters and non-ASCII case pairs, per-call
+Workload: directed witnesses (one case, always first); exhaustive histories over the label
+alphabet {a, A, b}, both case-sensitivity settings: every history of length <= 3 (quick) /
+<= 4 (thorough) over the 18-operation alphabet FULL, <= 4 / <= 5 over the 12-operation CORE,
+<= 6 over the 7-operation MINI (thorough), <= 6 / <= 8 over the 5-operation MICRO (8 only
+for the case-insensitive namespace) -- length 8 over all 18 operations is 1e10 histories and
+is not attempted; a history of length k gets the membership/bit comparison after every
+operation and the full comparison after its last one, every proper prefix being itself an
+enumerated history; a lazy replica of the FULL layer up to length 3; random histories of
+length 50 (half of them start from a namespace filled by the constructor from strings and
+Taxon objects) over label pools with duplicates, case variants, special characters and
+non-ASCII case pairs, per-call
 overrides, flag toggles, copies at random points."""
 import copy
 import itertools
@@ -937,7 +942,13 @@ class Run(object):
                 if want and not light:
                     # require_taxon on a present label: returns the first match, creates nothing
                     ctx.ev("require-checked")
-                    r = ns.require_taxon(q, **kw)
+                    try:
+                        r = ns.require_taxon(q, **kw)
+                    except Exception as e:
+                        ctx.violation("require_taxon|raised-although-label-present|%s" % mode,
+                                      "require_taxon(%r) raised %s although %d member(s) match" % (
+                                          q, type(e).__name__, len(want)), self.detail(members=self.lab(m.members)))
+                        raise Abort()
                     if r is not want[0] or len(ns) != n0:
                         ctx.violation("require_taxon|%s|%s" % (
                             "created-members-although-label-present" if len(ns) != n0 else "not-the-first-match", mode),
